@@ -150,7 +150,11 @@ fn find_slice_files(paths: &[String], are_source_files: bool, diagnostics: &mut 
             continue;
         }
 
-        slice_paths.extend(find_slice_files_in_path(path_buf, diagnostics));
+        // Directories can be reached more than once through symbolic links (even through links that point back to one
+        // of their own ancestors). We keep track of the directories we've walked through for this path, so that each
+        // of them is only walked through once.
+        let mut visited_directories = Vec::new();
+        slice_paths.extend(find_slice_files_in_path(path_buf, &mut visited_directories, diagnostics));
     }
 
     slice_paths
@@ -171,11 +175,15 @@ fn find_slice_files(paths: &[String], are_source_files: bool, diagnostics: &mut 
         .collect()
 }
 
-fn find_slice_files_in_path(path: PathBuf, diagnostics: &mut Diagnostics) -> Vec<PathBuf> {
+fn find_slice_files_in_path(
+    path: PathBuf,
+    visited_directories: &mut Vec<PathBuf>,
+    diagnostics: &mut Diagnostics,
+) -> Vec<PathBuf> {
     let mut paths = Vec::new();
     if path.is_dir() {
         // Recurse into the directory.
-        match find_slice_files_in_directory(&path, diagnostics) {
+        match find_slice_files_in_directory(&path, visited_directories, diagnostics) {
             Ok(child_paths) => paths.extend(child_paths),
             Err(error) => Diagnostic::new(Error::IO {
                 action: "read",
@@ -193,14 +201,27 @@ fn find_slice_files_in_path(path: PathBuf, diagnostics: &mut Diagnostics) -> Vec
     paths
 }
 
-fn find_slice_files_in_directory(path: &Path, diagnostics: &mut Diagnostics) -> io::Result<Vec<PathBuf>> {
+fn find_slice_files_in_directory(
+    path: &Path,
+    visited_directories: &mut Vec<PathBuf>,
+    diagnostics: &mut Diagnostics,
+) -> io::Result<Vec<PathBuf>> {
     let mut paths = Vec::new();
+
+    // If we've already walked through this directory (we reached it again through a symbolic link), there's nothing left
+    // to find in it. This is also what keeps us from walking in circles when a link points back to an ancestor.
+    let canonicalized_path = path.canonicalize()?;
+    if visited_directories.contains(&canonicalized_path) {
+        return Ok(paths);
+    }
+    visited_directories.push(canonicalized_path);
+
     let dir = path.read_dir()?;
 
     // Iterate though the directory and recurse into any subdirectories.
     for child in dir {
         match child {
-            Ok(child) => paths.extend(find_slice_files_in_path(child.path(), diagnostics)),
+            Ok(child) => paths.extend(find_slice_files_in_path(child.path(), visited_directories, diagnostics)),
             Err(error) => {
                 // If we cannot read the directory entry, report an error and continue.
                 Diagnostic::new(Error::IO {
